@@ -53,6 +53,7 @@ type ProcData struct {
 	Ops      int
 	// CrashAtOp > 0: kill the process when its Ops counter reaches this value.
 	CrashAtOp int
+	open      map[*os.File]bool // descriptors the process holds (closed when it dies)
 }
 
 var pdMu sync.Mutex
@@ -208,7 +209,7 @@ func Open(name string, site string) (*os.File, error) {
 	if err := pre("open", name, "fs-error-read", site); err != nil {
 		return nil, err
 	}
-	return os.Open(name)
+	return track(os.Open(name))
 }
 
 func OpenFile(name string, flag int, perm os.FileMode, site string) (*os.File, error) {
@@ -219,14 +220,14 @@ func OpenFile(name string, flag int, perm os.FileMode, site string) (*os.File, e
 	if err := pre("open", name, kind, site); err != nil {
 		return nil, err
 	}
-	return os.OpenFile(name, flag, perm)
+	return track(os.OpenFile(name, flag, perm))
 }
 
 func Create(name string, site string) (*os.File, error) {
 	if err := pre("create", name, "fs-error-write", site); err != nil {
 		return nil, err
 	}
-	return os.Create(name)
+	return track(os.Create(name))
 }
 
 func CreateTemp(dir, pattern string, site string) (*os.File, error) {
@@ -248,7 +249,54 @@ func CreateTemp(dir, pattern string, site string) (*os.File, error) {
 		if os.IsExist(err) {
 			continue
 		}
+		return track(f, err)
+	}
+}
+
+// track / untrack: the descriptors a simulated process holds. A dead process's descriptors are
+// closed (as the OS would): the tasks of a killed process never run again, so without this a
+// long-lived worker process runs out of descriptors.
+func track(f *os.File, err error) (*os.File, error) {
+	if err != nil || f == nil || simrt.S == nil {
 		return f, err
+	}
+	if p := simrt.CurProc(); p != nil {
+		pd := PD(p)
+		pdMu.Lock()
+		if pd.open == nil {
+			pd.open = map[*os.File]bool{}
+		}
+		pd.open[f] = true
+		pdMu.Unlock()
+	}
+	return f, err
+}
+
+func untrack(f *os.File) {
+	if simrt.S == nil {
+		return
+	}
+	if p := simrt.CurProc(); p != nil {
+		pd := PD(p)
+		pdMu.Lock()
+		delete(pd.open, f)
+		pdMu.Unlock()
+	}
+}
+
+func init() {
+	simrt.OnProcDead = func(p *simrt.Proc) {
+		pd, ok := p.Data.(*ProcData)
+		if !ok || pd == nil {
+			return
+		}
+		pdMu.Lock()
+		files := pd.open
+		pd.open = nil
+		pdMu.Unlock()
+		for f := range files {
+			f.Close()
+		}
 	}
 }
 
@@ -543,6 +591,7 @@ func FileClose(f *os.File, site string) error {
 	if f == nil {
 		return os.ErrInvalid
 	}
+	untrack(f)
 	if dead() || simrt.S == nil {
 		return f.Close()
 	}
